@@ -6,6 +6,7 @@ import RsModel.Lemmas.ModeMap
 import RsModel.Lemmas.ModeCold
 import RsModel.Lemmas.NameLevel
 import RsModel.Lemmas.LinesTree
+import RsModel.Lemmas.WarmMap
 /-!
 # C03 — `map()` attributes every position exactly as the chunk stream does
 (T1 of DESIGN: the codec step of the chain.)
@@ -184,5 +185,24 @@ theorem c03_lines (s : Src) (h : s.ModeHypL) (hn : s.ids.Nodup) (σF σN : Store
 theorem c03_lines_decls (s : Src) (h : s.ModeHypL) (hn : s.ids.Nodup) (σF σN : Store) (hcF : Cold σF s.ids) (hcN : Cold σN s.ids) :
     declsOf (s.stream ⟨false, true⟩ σF).1.evs = declsOf (s.stream ⟨false, false⟩ σN).1.evs :=
   (Src.m3l s h hn σF σN hcF hcN).decls
+
+
+/-- **`map()` twice on a tree with warm caches** (columns = true): `s` is a tree of the domain of C03 with CachedSource nodes at any
+depth and in any number (none beneath a ReplaceSource — K5), on cold caches.  The first `get_map` stores, in every CachedSource, the
+map built from its subtree's text-less stream; the second `get_map` finds those entries, and every outermost CachedSource replays its
+text through the stored map.  Resolving every position of `source()` through the second map and its own `sources` / `names` tables
+gives the same file name, original line, original column and name as through the first.  Chain: C03 name level on the cold tree
+(`getMap_names`) ∘ the second call is the stream of the replay tree (`Src.stream_fills`, `Src.stream_warm`) ∘ the replay tree is in
+the domain of C03 (`stored_map_ok`: a stored map is sorted, inside its text, with indices inside its tables) ∘ C03 name level on the
+replay tree ∘ the replay of a subtree attributes like the subtree (C08 name level `streamSM_attrN` ∘ C03 on the subtree) ∘
+ConcatSource composes at name level (`concatStream_NA`).  Mapping values below 2³¹ (`SmallF`, `hsmall*`: the codec's domain). -/
+theorem c03_map_twice_warm (s : Src) (σ : Store) (h : s.ModeHypC) (hk : s.CachedOK) (hs : s.SmallF) (hn : s.ids.Nodup) (hc : Cold σ s.ids)
+    (f1 f2 : Bool)
+    (hsmall1 : ∀ m ∈ chunkMs (s.stream ⟨true, true⟩ σ).1.evs, m.small)
+    (hsmall2 : ∀ m ∈ chunkMs ((s.warm ⟨true, true⟩).stream ⟨true, true⟩ []).1.evs, m.small)
+    (sm1 sm2 : SMap) (h1 : (getMap s ⟨true, f1⟩ σ).1 = some sm1) (h2 : (getMap s ⟨true, f2⟩ (getMap s ⟨true, f1⟩ σ).2).1 = some sm2) :
+    (attrFrom (decode sm2.mappings) startPos s.src).map (Option.map (resolveMF sm2))
+      = (attrFrom (decode sm1.mappings) startPos s.src).map (Option.map (resolveMF sm1)) :=
+  getMap_twice s σ h hk hs hn hc f1 f2 hsmall1 hsmall2 sm1 sm2 h1 h2
 
 end Rs
